@@ -27,7 +27,7 @@ def parseCase (c : String) : Option (List (List Elem)) :=
   -- `mergeD` / `mergeS`: the same merge under comparators that answer differences / ±7 (harness/run/c08.go); the model's
   -- comparator is the order they all induce
   | [h] :: ins =>
-    if h == "merge" || h == "mergeZ" || h == "mergeD" || h == "mergeS" || h == "mergeA" then
+    if h == "merge" || h == "mergeZ" || h == "mergeD" || h == "mergeS" || h == "mergeA" || h == "mergeN" || h == "mergeR" then
       ins.mapM (fun ts => match ts with | [t] => parseElems t | _ => none)
     else none
   | _ => none
@@ -42,7 +42,16 @@ def handle (c obs : String) : String × Bool × String :=
       let want := s!"ok z{(mergeStreams ltKey ins).length}"
       (want, obs == s!"ok z{ins.flatten.length}", if obs == s!"ok z{ins.flatten.length}" then "" else s!"want ok z{ins.flatten.length}")
     else
-    let model := "ok " ++ fmtElems (mergeStreams ltKey ins)
+    -- `mergeN` / `mergeR`: the first / last two inputs are merged first and the merged stream is an input of the outer merge
+    let nested : List (List Elem) :=
+      match (words c).head?, ins with
+      | some "mergeN", a :: b :: rest => mergeStreams ltKey [a, b] :: rest
+      | some "mergeR", _ =>
+        (match ins.reverse with
+         | b :: a :: rest => (mergeStreams ltKey [a, b] :: rest).reverse
+         | _ => ins)
+      | _, _ => ins
+    let model := "ok " ++ fmtElems (mergeStreams ltKey nested)
     -- the property, evaluated on what the real code returned: stable sort of the concatenation
     let want := "ok " ++ fmtElems (ins.flatten.mergeSort leKey)
     (model, obs == want, if obs == want then "" else s!"want {want}")
